@@ -272,10 +272,10 @@ theorem spec_frame_snd (dumps : J → Str) (p : Packet) :
 theorem spec_accepts_lem {dumps : J → Str} {loads : Str → Except Err J} {p : Packet}
     (hrt : ∀ j, p.wire.data = some j → loads (dumps j) = .ok j)
     (hstart : ∀ j, p.wire.data = some j → StartOK (dumps j) = true)
-    (hwf : WF p = true) :
+    (hwf : WFCore p = true) :
     Spec.parse loads (Spec.frame dumps p).1 = .ok (p.wire, (Spec.frame dumps p).2.length) := by
   rw [spec_frame_fst, spec_frame_snd]
-  obtain ⟨hh, _, _, _, hlen⟩ := wf_unpack hwf
+  obtain ⟨hh, _, _, hlen⟩ := wf_unpack hwf
   have tail_json : ∀ (j : J) (n : Nat), p.wire.data = some j →
       specTail loads p.type (normNs p.nsp) p.id n (dumps j)
         = .ok (⟨p.type, normNs p.nsp, p.id, some j⟩, n) := by
